@@ -113,9 +113,9 @@ TEXTS = {
     },
     "C09": {
         "design_ref": 'DESIGN.md §8 C09',
-        "technique": 'Lean 4 theorems about the specification of merging (union of projections, attribution, order independence) over an abstract master model; oracle run on the real loader over random masters, all splits at splittable points and all load orders',
-        "level_text": "Proved for every master, split and file order: the union of the per-file views is exactly the master, does not depend on the order of the files, and a file's view contains an element exactly if the element is attributed to the file. The positional merge algorithm is compared with this specification on the real library (all load orders, per-file reload, conflicts rejected): partial.",
-        "level_note": "Trusted: Lean kernel; axioms propext, Classical.choice, Quot.sound. " + 'merge_element / calc_*_merge / import_new_items have no Lean model; four known findings c09:*.',
+        "technique": 'Lean 4 theorems about the specification of merging (union of projections, attribution, order independence) and about an executable model of the merge algorithm (merge_element .. import_new_items) that, with the parser model, answers every load of every load order and is compared with the library; oracle on the real loader over random masters, all splits at splittable points and all load orders',
+        "level_text": 'Proved: for every master, split and file order the union of the per-file views is exactly the master, independent of the order, with exact attribution (specification level); for the model of the merge algorithm: no element of the model is lost by a merge, successful or not. The merge model is compared with the library after every load of every load order (tree, local file sets, index, reference map, sorted result). That the merged model equals the union and does not depend on the order is decided by the oracle: partial.',
+        "level_note": 'Trusted: Lean kernel; axioms propext, Classical.choice, Quot.sound. Four known findings c09:* (the merge model reproduces them).',
     },
     "C10": {
         "design_ref": 'DESIGN.md §8 C10',
